@@ -176,7 +176,8 @@ class SymArr:
 
 class NP(types.ModuleType):
     ndarray = SymArr
-    uint8 = "uint8"
+    uint8 = rnp.uint8
+    typing = rnp.typing  # only used in annotations
 
     def __getattr__(self, name):
         raise Inconclusive(f"numpy.{name} is not modelled by symnp")
